@@ -388,7 +388,7 @@ def naming(kind, n_max=20):
         return {k: w[(k - 1) % len(w)] + ("" if k <= len(w) else "_" + str(k)) for k in range(1, n_max + 1)}
     if kind == "weird":
         # names containing the characters of the printed form of a ranking: different rankings may PRINT alike
-        w = ["a", "b", "a}, {b", "c", "b}, {c", "{a", "a, b", "d", "e", "f", "g", "h"]
+        w = ["a", "b", "a, b", "c", "a}, {b", "b}, {c", "{a", "d", "e", "f", "g", "h"]
         return {k: w[(k - 1) % len(w)] + ("" if k <= len(w) else str(k)) for k in range(1, n_max + 1)}
     if kind == "neg":
         return {k: -k for k in range(1, n_max + 1)}
@@ -577,7 +577,10 @@ LEX = [(([0, 1, 1, 0, 1, 1], [1, 1, 0, 1, 1, 0]), ([0, 0, 0, 0, 1, 0], [0, 0, 0,
        (([0, 1, 0, 0, 0, 0], [0, 0, 0, 0, 0, 0]), ([0, 0, 1, 0, 1, 1], [1, 1, 0, 1, 1, 0])),
        (([0, 1, 1, 0, 0, 0], [1, 1, 0, 0, 0, 0]), ([0, 1, 0, 0, 0, 0], [0, 0, 0, 1, 1, 1])),
        (([0, 1, 1, 0, 1, 0], [1, 1, 0, 1, 1, 0]), ([0, 0, 1, 0, 0, 0], [0, 0, 0, 0, 0, 1])),
-       (([0, 1, 0, 0, 0, 0], [1, 1, 0, 0, 0, 0]), ([0, 0, 2, 1, 1, 0], [1, 1, 0, 0, 0, 1]))]
+       (([0, 1, 0, 0, 0, 0], [1, 1, 0, 0, 0, 0]), ([0, 0, 2, 1, 1, 0], [1, 1, 0, 0, 0, 1])),
+       # huge penalties only for pairs with a missing element: the same offset on both orders of a pair
+       (([0, 0, 0, 0, 1, 0], [0, 0, 0, 1, 1, 0]), ([0, 1, 1, 0, 0, 0], [1, 1, 0, 0, 0, 0])),
+       (([0, 0, 0, 1, 1, 1], [0, 0, 0, 1, 1, 1]), ([0, 2, 1, 0, 1, 0], [1, 1, 0, 0, 0, 0]))]
 
 
 def lex_vectors(k):
